@@ -102,3 +102,12 @@ check("C19",
       "Random read sequences run on databases built from the repository's data files.",
       TB + "Exceptions raised by a read call itself are not judged here.",
       "TLA+ state machine (MC_Files) + TLC action properties + spec-generated behaviours replayed on real files with SQL statement tracing and before/after snapshots")
+
+check("C03",
+      "GffDB models the GTF importer line by line (transcript key -> level 1, gene key -> level 2 and gene->transcript level 1, never self) and InferGTF (pairs of level-1 "
+      "parents of subfeatures and their own parent, MIN/MAX extents over subfeature children, one gene per id, collision of a derived feature through Collide('merge') "
+      "with the UPDATE-only quirk, flags). MC_DB03 restates C03 from the LINES (one feature per transcript/gene id with the exact extent or the explicit line, levels, "
+      "flags suppress exactly the derived set, no self relation, nothing else stored) for every ordered selection of <= 4 (quick) / 5 (thorough) of 9 menu lines x 5 "
+      "variants. Every file is imported by the code and compared on ids, types, seqid, strand, extents, relation rows, db[id] and children(level).",
+      TB + "Lines carry both keys; only the columns the statement names are compared for derived features.",
+      "TLA+ state-machine spec (GffDB GTF path) + TLC declarative invariants over ordered line selections x flags + spec-generated files replayed on the code")
